@@ -248,6 +248,58 @@ type session struct {
 	cfgHH    bool
 	cfgMem   uint64
 	realRepo bool
+	txm      *bitcoin_reader.TxManager
+	txto     time.Duration // tx request timeout when the script sets a short one (0 = long default)
+	start    time.Time
+	reqTimes []reqTime // when ops that can (re)stamp a tx request were sent / answered
+	doubt    bool
+	handled  time.Time // when the node was first seen to have handled everything of the current op
+}
+
+// reqTime brackets the instant at which the node stamped LastRequested for an op.
+type reqTime struct{ send, done time.Time }
+
+const timingMargin = 12 * time.Millisecond
+
+// beforeTimed sleeps until no earlier request stamp can be within the margin of the timeout at the
+// time this op will be handled, and returns the clock reading (ms since init) written into the op.
+func (s *session) beforeTimed() int64 {
+	for i := 0; i < 4; i++ {
+		now := time.Now()
+		var sleep time.Duration
+		for _, p := range s.reqTimes {
+			lo := now.Sub(p.done)
+			hi := now.Add(15 * time.Millisecond).Sub(p.send)
+			if lo < s.txto+timingMargin && hi > s.txto-timingMargin {
+				if d := p.done.Add(s.txto + timingMargin).Sub(now); d > sleep {
+					sleep = d
+				}
+			}
+		}
+		if sleep <= 0 {
+			break
+		}
+		time.Sleep(sleep + time.Millisecond)
+	}
+	return time.Since(s.start).Milliseconds()
+}
+
+// afterTimed records the op and flags the script when the measured interval leaves it open whether
+// a request had timed out when the node handled the op (the script is then run again).
+func (s *session) afterTimed(send time.Time, t int64) {
+	done := time.Now()
+	if !s.handled.IsZero() && s.handled.After(send) {
+		done = s.handled
+	}
+	for _, p := range s.reqTimes {
+		min := send.Sub(p.done) >= s.txto
+		max := done.Sub(p.send) >= s.txto
+		model := time.Duration(t-p.send.Sub(s.start).Milliseconds())*time.Millisecond >= s.txto
+		if min != max || model != min {
+			s.doubt = true
+		}
+	}
+	s.reqTimes = append(s.reqTimes, reqTime{send, done})
 }
 
 func (s *session) reader() {
@@ -341,12 +393,18 @@ func (s *session) waitBarrier(d time.Duration, nonce uint64) string {
 		nrecv := len(s.recv)
 		s.mu.Unlock()
 		if ok {
+			if s.handled.IsZero() {
+				s.handled = time.Now()
+			}
 			return "ok"
 		}
 		if closed {
 			return "closed"
 		}
 		read, waiting := s.cc.state()
+		if waiting && read == s.queued && s.handled.IsZero() {
+			s.handled = time.Now()
+		}
 		if waiting && read == s.queued && atomic.LoadInt64(&s.written) == s.queued && nrecv == lastRecv {
 			if quietSince.IsZero() {
 				quietSince = time.Now()
@@ -443,8 +501,15 @@ func newSession(a hx.Args) (*session, string) {
 		s.node.SetVerifyOnly()
 	}
 	if s.cfgTx {
-		s.node.SetTxManager(bitcoin_reader.NewTxManager(time.Hour))
+		to := time.Hour
+		if v, ok := a.Uint("txto"); ok && v > 0 && v < 3600000 {
+			s.txto = time.Duration(v) * time.Millisecond
+			to = s.txto
+		}
+		s.txm = bitcoin_reader.NewTxManager(to)
+		s.node.SetTxManager(s.txm)
 	}
+	s.start = time.Now()
 	if s.cfgHH {
 		s.node.SetHeaderHandler(altHandler(s.log))
 	}
@@ -546,6 +611,7 @@ func (s *session) sendOp(a hx.Args, b []byte, own uint64, hasOwn bool) string {
 	}
 	out := append(append([]byte{}, b...), frame("ping", le64(nonce), nil)...)
 	s.queued += int64(len(out))
+	s.handled = time.Time{}
 	s.writeQ <- out
 	res := s.waitBarrier(waitOf(a, defaultWait), nonce)
 	if res == "ok" {
@@ -730,10 +796,21 @@ func initLine(a hx.Args, pn uint64) string {
 	if a["repo"] == "real" {
 		extra = " repo=real"
 	}
+	if v, ok := a.Uint("txto"); ok && v > 0 && v < 3600000 {
+		extra += fmt.Sprintf(" txto=%d", v)
+	}
 	return fmt.Sprintf("init verifyonly=%s tx=%s hh=%s mem=%d pn=%d%s", z("verifyonly"), z("tx"), z("hh"), mem, pn, extra)
 }
 
 func (w *worker) step(line string) string {
+	res := w.stepInner(line)
+	if w.s != nil && w.s.doubt && !strings.Contains(res, " #") {
+		res += " #timing-doubt"
+	}
+	return res
+}
+
+func (w *worker) stepInner(line string) string {
 	op := hx.OpPart(line)
 	verb, a := hx.Parse(op)
 	if verb == "init" {
@@ -753,7 +830,60 @@ func (w *worker) step(line string) string {
 		return op + " => bad-op"
 	}
 	s.opIdx++
+	timed := false
+	var tSend time.Time
+	var tMs int64
+	if s.txto > 0 && !s.dead && ((verb == "msg" && a["cmd"] == "inv") || verb == "raw" || verb == "polltx") {
+		// the node reads the clock while handling this op: write the reading into the op text
+		ws := strings.Fields(op)
+		kept := ws[:0]
+		for _, w := range ws {
+			if !strings.HasPrefix(w, "t=") {
+				kept = append(kept, w)
+			}
+		}
+		tMs = s.beforeTimed()
+		tSend = time.Now()
+		op = strings.Join(kept, " ") + fmt.Sprintf(" t=%d", tMs)
+		timed = true
+	}
+	defer func() {
+		if timed {
+			s.afterTimed(tSend, tMs)
+		}
+	}()
 	switch verb {
+	case "wait":
+		ms, ok := a.Uint("ms")
+		if !ok || ms > 5000 {
+			break
+		}
+		time.Sleep(time.Duration(ms) * time.Millisecond)
+		return op + " => ok"
+	case "polltx":
+		if s.dead {
+			return op + " => dead"
+		}
+		if s.txm == nil {
+			return op + " => req=notx"
+		}
+		txids, _ := s.txm.GetTxRequests(hx.Ctx(), s.node.ID(), 100000)
+		if len(txids) > 0 {
+			s.mu.Lock()
+			before := s.taken
+			s.mu.Unlock()
+			s.node.RequestTxs(hx.Ctx(), txids)
+			s.waitFor(settleWait, func() bool {
+				for _, m := range s.recv[before:] {
+					if m.cmd == "getdata" {
+						return true
+					}
+				}
+				return false
+			})
+			s.takeSent(0, false)
+		}
+		return op + fmt.Sprintf(" => req=%d ", len(txids)) + s.sendOp(a, nil, 0, false)
 	case "msg":
 		p, ok := payloadOf(a)
 		cmd, ok2 := a["cmd"]
@@ -931,66 +1061,98 @@ func (c *child) kill() {
 	c.errF.Close()
 }
 
-func runParent() {
-	in := bufio.NewScanner(os.Stdin)
-	in.Buffer(make([]byte, 1<<20), 1<<28)
-	out := bufio.NewWriterSize(os.Stdout, 1<<16)
-	defer out.Flush()
-	var c *child
-	scriptDead := false
-	for in.Scan() {
-		line := in.Text()
+// runScript feeds one script (from its init line to the line before the next init) to the worker
+// and returns the output lines; doubt = the worker could not tell on which side of the tx request
+// timeout an op fell (the script is then run again).
+func runScript(c **child, lines []string) (out []string, doubt bool) {
+	dead := false
+	for _, line := range lines {
 		if line == "" || strings.HasPrefix(line, "#") {
-			fmt.Fprintln(out, line)
+			out = append(out, line)
 			continue
 		}
 		op := hx.OpPart(line)
-		isInit := strings.HasPrefix(op, "init")
-		if isInit {
-			scriptDead = false
-		}
-		if scriptDead {
-			fmt.Fprintln(out, op+" => dead")
-			out.Flush()
+		if dead {
+			out = append(out, op+" => dead")
 			continue
 		}
-		if c == nil {
-			c = startChild()
+		if *c == nil {
+			*c = startChild()
 		}
-		io.WriteString(c.in, op+"\n")
+		io.WriteString((*c).in, op+"\n")
 		var res string
 		ok := false
 		select {
-		case res, ok = <-c.lines:
+		case res, ok = <-(*c).lines:
 		case <-time.After(60 * time.Second):
 		}
 		if ok {
-			fmt.Fprintln(out, res)
-			out.Flush()
+			if strings.HasSuffix(res, " #timing-doubt") {
+				doubt = true
+			}
+			out = append(out, res)
 			continue
 		}
 		// the worker died (process abort in the real code) or hung
-		c.cmd.Process.Kill()
-		err := c.cmd.Wait()
+		(*c).cmd.Process.Kill()
+		err := (*c).cmd.Wait()
 		code := -1
 		if ee, isExit := err.(*exec.ExitError); isExit {
 			code = ee.ExitCode()
 		}
-		text := strings.ReplaceAll(c.firstPanicLine(), " ", "_")
+		text := strings.ReplaceAll((*c).firstPanicLine(), " ", "_")
 		if len(text) > 160 {
 			text = text[:160]
 		}
-		os.Remove(c.errF.Name())
-		c.errF.Close()
-		c = nil
+		os.Remove((*c).errF.Name())
+		(*c).errF.Close()
+		*c = nil
 		key := "sync"
 		if strings.HasPrefix(op, "ping ") {
 			key = "pong"
 		}
-		fmt.Fprintf(out, "%s => %s=crash #exit=%d_%s\n", op, key, code, text)
-		out.Flush()
-		scriptDead = true
+		if strings.HasPrefix(op, "polltx") {
+			key = "req"
+		}
+		out = append(out, fmt.Sprintf("%s => %s=crash #exit=%d_%s", op, key, code, text))
+		dead = true
 	}
+	return out, doubt
+}
+
+func runParent() {
+	in := bufio.NewScanner(os.Stdin)
+	in.Buffer(make([]byte, 1<<20), 1<<28)
+	w := bufio.NewWriterSize(os.Stdout, 1<<16)
+	defer w.Flush()
+	var c *child
+	var script []string
+	flush := func() {
+		if len(script) == 0 {
+			return
+		}
+		var out []string
+		for attempt := 0; attempt < 4; attempt++ {
+			var doubt bool
+			out, doubt = runScript(&c, script)
+			if !doubt {
+				break
+			}
+		}
+		for _, l := range out {
+			fmt.Fprintln(w, l)
+		}
+		w.Flush()
+		script = script[:0]
+	}
+	for in.Scan() {
+		line := in.Text()
+		if strings.HasPrefix(hx.OpPart(line), "init") {
+			flush()
+		}
+		script = append(script, line)
+	}
+	flush()
 	if c != nil {
 		c.kill()
 	}
